@@ -76,13 +76,16 @@ CLAIMED = {
         "Lean 4 theorems about a mirror of assign_implicit_tags, sort_fields_canonically, TagResolver and the two-stage pipeline: "
         "for every field list the emitted SET order is a permutation, pairwise ordered by (root-before-extension, class rank "
         "U<A<C<P from the extracted derive(Ord) order, number), stable; automatic tags iff no component is tagged; SEQUENCE keeps "
-        "textual order; the resolver is total on acyclic reference graphs. Where the code deviates from X.680 8.6 (untagged CHOICE "
-        "with automatically tagged alternatives, leading marker, TAG constants of SET/SET OF/DEFAULT, cyclic references) the full "
-        "statements are kept, refuted on witnesses, _partial theorems carry the hypotheses; six listed known findings.",
+        "textual order; set_order: the ROOT components are a permutation in canonical order, the extension additions keep the order "
+        "of their definition and EXTENDED_AFTER_FIELD is untouched (after fix d2231e0); tag_const: every TAG constant is the X.680 "
+        "tag (full after fixes 39afb7e, 0dc04e9, 9e775f3); resolver_total for EVERY module, cyclic or not (after fix bf3ee89), "
+        "resolver_unchanged_on_acyclic. Where the code still deviates from X.680 8.6 (untagged CHOICE with automatically tagged "
+        "alternatives, leading marker) the full statements are kept, refuted on witnesses, _partial theorems carry the hypotheses; "
+        "two listed known findings.",
         "Trusted: Lean kernel, standard axioms; tag ranks/default tags from the translator; mirror validated by the `tags` stream "
         "running the real converter and attribute macro (all permutations of <= 4 components quick, <= 5 thorough); Python X.680 oracle. "
         "The wire order for values is covered by the UPER streams over the compiled SET types of the zoo.",
-        "Lean 4 proof (mergeSort permutation/sortedness/stability, fuel sufficiency) + correspondence stream",
+        "Lean 4 proof (mergeSort permutation/sortedness/stability, visiting-stack termination measure) + correspondence stream",
     ),
     "C09": (
         "DESIGN.md 5 (C09)",
@@ -102,9 +105,10 @@ CLAIMED = {
         "all string kinds, octet/bit strings with any size constraint, optional, default with bool/string/int/item literal, nested "
         "sequence_of/set_of, tagged complex; any tag, any const list) parsing the printed attribute tokens gives back the field, by "
         "structural induction over a token-level mirror of the generator's printer and the attribute macro's parser; each excluded "
-        "region has a decided counterexample and is a listed known finding. The definition header and the expanded descriptor "
-        "constants are not modelled; they are exercised on the real code by `attr reparse` and by the descriptor-consistency "
-        "comparison of the UPER streams (generated constants vs component lists).",
+        "region has a decided counterexample and is a listed known finding. The expanded descriptor constants are modelled by "
+        "Codegen/ConstsModel.lean (Props/C08Consts.lean: consts_match* — the constants as a function of the source type, deviations "
+        "refuted on witnesses) and tied by the stream `consts` (compiled zoo = Python expectation from the ASN.1 text = Lean model); "
+        "the definition header is exercised on the real code by `attr reparse`.",
         "Trusted: Lean kernel, standard axioms; proc_macro2/syn tokenisation is part of the trusted base, checked by the `attr` stream; "
         "corpus = module texts of /repo/tests plus generated modules.",
         "Lean 4 proof (print/parse round trip by structural induction) + correspondence and reparse streams",
@@ -118,9 +122,12 @@ CLAIMED = {
         "default; refusal_iff / refusal_converse: the encoder fails only with ExtensionFieldsInconsistent (first addition absent, later "
         "present) or with a component's own error; the encoder never panics; on the reader side absent root components and additions "
         "decode to absent/default without moving the cursor. Full strength after the NULL-counting and DEFAULT-addition fix: commits.",
-        "Trusted: Lean kernel, standard axioms; the compositional mirror is validated against the position-patching scope machine by "
+        "Trusted: Lean kernel, standard axioms; the faithful model of the position-patching scope machine (Uper/Scope.lean) is proved "
+        "to refine the compositional mirror (Props/Scope.lean: write_refines for every descriptor and value, no_patch_beyond_written, "
+        "read_refines_partial; audited by this check); both are validated against the real code by "
         "the `uper` streams: every SEQUENCE shape with <= 3 components x kinds x marker position x every presence pattern with the "
-        "expected bits computed independently in Python, plus generated values of nested/SET/version types.",
+        "expected bits computed independently in Python, plus generated values of nested/SET/version types; stream `consts` ties "
+        "the descriptors to the ASN.1 source of the zoo.",
         "Lean 4 proof (append-only frame lemma over the component list) + exhaustive shape correspondence stream",
     ),
     "C04": (
@@ -130,10 +137,12 @@ CLAIMED = {
         "length (no_overread), octet/bit/character strings allocate at most what the input holds, a SEQUENCE OF of elements that "
         "consume at least one bit has at most |input| elements (work_bound_partial); the DER readers never panic (from C20). "
         "The full work bound is false for zero-width elements under a 63-bit length field (not_workBounded, known finding). "
-        "Real runtime facts (allocator, stack) are observed by the hostile stream only. The protobuf reader part is added when its "
-        "model lands (until then covered by no claim).",
+        "Real runtime facts (allocator, stack) are observed by the hostile stream only. Protobuf reader: proto_reader_total for the "
+        "reader variant the translator flag PROTO_READER_CHECKED selects (true since fixes ff0cfec, 11b3503, b49d2ea). The scope "
+        "machine's reader never panics (Props/Scope.lean read_never_panics).",
         "Trusted: Lean kernel, standard axioms; mirrors validated on hostile inputs (mutations of valid encodings, random and crafted "
-        "bits) with the real readers under catch_unwind, process aborts attributed per request; a declared bit length above 8*len is "
+        "bits) with the real readers under catch_unwind, process aborts attributed per request, a request without answer for 120 s "
+        "is a hang; DER inputs are read from a slice and from a one-octet-per-call source; a declared bit length above 8*len is "
         "outside (debug assertion in Bits::from).",
         "Lean 4 proof (mutual structural induction over Ty/Fields, suffix property of L1 readers) + hostile correspondence stream",
     ),
@@ -154,9 +163,10 @@ CLAIMED = {
         "Lean 4 theorem parse_print_partial: for every abstract module of the supported subset (all type kinds, tags, sizes with "
         "extensibility, named numbers, defaults, markers, imports, OIDs, unbounded nesting) parsing the printed token list gives the "
         "module back up to the SIZE normal forms only; built from per-construct lemmas parseX (printX x ++ rest) = ok (x', rest) "
-        "composed by mutual structural recursion. The lossy behaviours of the parser ((0..MAX) widening, keyword-like references, "
-        "Module suffix) are explicit hypotheses, each shown necessary by a counterexample, and are listed known findings together "
-        "with marker and string-default quirks found by the stream.",
+        "composed by mutual structural recursion. The lossy behaviours of the parser ((0..MAX) widening, Module suffix) are explicit "
+        "hypotheses, each shown necessary by a counterexample, and are listed known findings together with the marker quirks found "
+        "by the stream; the hypothesis about references called min/max and the string-literal quirks went away with fixes 5fba779 "
+        "and 869f3ad (parse_print_StringTokens: any token list, separator first or empty).",
         "Trusted: Lean kernel, standard axioms; token-level mirror of Model::try_from and the per-construct parsers validated by the "
         "`parse` stream (grammar-based schemas printed to text, real tokenizer+parser+resolver, canonical dump compared with the "
         "abstract schema; corpus of /repo/tests modules; mutated inputs). Layout independence is C13.",
@@ -167,9 +177,12 @@ CLAIMED = {
         "Lean 4 theorems about a mirror of ResolveScope/MultiModuleResolver: replacing integer/size/default literals by value "
         "references (same module, imported by name or by OID) resolves to the same model (subst, subst_all), independent of the load "
         "order when no import matches two loaded modules (load_order; the condition is shown necessary); unresolved names give "
-        "FailedToResolveReference and non-integer literals FailedToParseLiteral, never a substituted bound; import chasing has "
-        "enough fuel on acyclic imports and diverges on a cycle (known finding: stack overflow).",
-        "Trusted: Lean kernel, standard axioms; mirror validated by the `resolve` stream (all load orders of <= 3 modules, negatives).",
+        "FailedToResolveReference and non-integer literals FailedToParseLiteral, never a substituted bound; the import chase comes "
+        "back for every module, scope and name (chase_total; cyclic imports of an undefined name are rejected, after fix c798d52), "
+        "its hop bound changes no answer for any scope (chase_bound_never_observable, by pigeonhole over the scope) and is sharp; a "
+        "negative SIZE reference is refused (after fix 25e77f4).",
+        "Trusted: Lean kernel, standard axioms; mirror validated by the `resolve` stream (all load orders of <= 3 modules, FROM "
+        "clauses in both orders, decoy definitions, typed value references, negatives).",
         "Lean 4 proof (substitution lemma per construct, lookup agreement) + correspondence stream",
     ),
     "C19": (
@@ -192,7 +205,9 @@ CLAIMED = {
         "F-frag: symbolic lemma frag_ignored shows the mismatch for every n >= 16K not a multiple of 16K), open-type contents of "
         ">= 16384 octets, mandatory SEQUENCE OF extension additions (hand-written descriptors only), integers outside their Rust "
         "type. The full statement is kept and refuted on witnesses.",
-        "Trusted: Lean kernel, standard axioms; compositional mirror validated by the round-trip stream over all zoo types "
+        "Trusted: Lean kernel, standard axioms; the faithful model of the Scope state machine (Uper/Scope.lean) is proved to refine "
+        "the compositional mirror (Props/Scope.lean, audited by this check) and both answer every request; mirror validated by the "
+        "round-trip stream over all zoo types "
         "(valid values, several messages per writer, long values in every fragment class) with the oracle decode(encode v) = v "
         "and remaining = 0 on the real crate.",
         "Lean 4 proof (mutual structural induction, position lemmas, L1 round trips from C10) + round-trip correspondence stream",
@@ -218,17 +233,21 @@ CLAIMED = {
         "enum_bwd_known, enum_bwd_unknown and choice_* (unknown values give InvalidChoiceIndex, never a value); seq_fwd_partial "
         "(a V1 encoding decodes under V2 to the same components with the new additions absent/default, ending at |pre|+|bits|) "
         "and seq_bwd_partial (a V2 encoding decodes under V1 to V1's components, unknown additions skipped through skipUnknown, "
-        "same end position), for any V1 with its own additions. Hypothesis WF (as C01). bwd became true with fix 91e31d8.",
-        "Trusted: Lean kernel, standard axioms; mirror validated by the cross-version stream (families MsgV1-3, Chain0-8, ChoV1-3, "
-        "EnuV1-3, WrapV1-3 in both directions with a sentinel appended after the message).",
+        "same end position), for any V1 with its own additions. Hypothesis WF (as C01). bwd became true with fix 91e31d8; "
+        "set_version_descriptor: the descriptor of a SET version with appended additions is the old one followed by the new "
+        "additions (after fix d2231e0).",
+        "Trusted: Lean kernel, standard axioms; mirror validated by the cross-version stream (families Msg, Chain0-8, Big0-5, Deep, "
+        "Hold, Cho, Enu, Wrap, SetV in both directions with a sentinel appended after the message) and the source-to-descriptor "
+        "stream `consts`.",
         "Lean 4 proof (continuation lemmas over common components, skipUnknown) + cross-version correspondence stream",
     ),
     "C14": (
         "DESIGN.md 5 (C14)",
         "Lean 4 theorems: tokenizer_panics_iff (exactly the documented unterminated-block-comment condition), parser_terminates "
         "(for EVERY token list the recursive descent mirror never runs out of fuel = |tokens|+1, i.e. every recursive step consumes "
-        "a token; the fuel is unobservable), parser_total, front_end_total (text -> tokens -> bridge -> parser), resolver and "
-        "tag resolver total on acyclic imports/references (partial; divergence on cycles proved, known findings). The Rust panic "
+        "a token; the fuel is unobservable), parser_total, front_end_total (text -> tokens -> bridge -> parser), resolve_total, "
+        "resolve_all_total, tag_resolver_total, conversion_terminates: unconditional since the cycle repairs bf3ee89 and c798d52 "
+        "(one known finding left: nesting depth). The Rust panic "
         "sites are tabulated in the property file; the fuzz streams (1-4 char/token mutations of printed modules, token soups) "
         "check on the real front end that no panic/abort occurs outside the listed finding classes, and that every error carries "
         "the offending token at its real position.",
